@@ -43,6 +43,28 @@ def _short_ty(t):
     return re.sub(r"[A-Za-z_][A-Za-z0-9_]*::", "", t or "")
 
 
+def literal_fingerprint(rec):
+    """A short digest of the integer literals in a function's body (sorted multiset): enough to tell two renamed functions of one
+    module with the same signature apart when their bodies were left alone."""
+    import hashlib
+    lits = []
+
+    def walk(x):
+        if isinstance(x, dict):
+            k = x.get("k")
+            if isinstance(k, dict) and "v" in k and str(k.get("ty", ""))[:1] in ("u", "i"):
+                lits.append("%s:%s" % (k["v"], k.get("ty")))
+            for v in x.values():
+                walk(v)
+        elif isinstance(x, list):
+            for v in x:
+                walk(v)
+    for bb in rec.get("blocks", []):
+        if not bb.get("c"):
+            walk(bb)
+    return "%d:%s" % (len(lits), hashlib.sha1("|".join(sorted(lits)).encode()).hexdigest()[:12])
+
+
 def alias_map(crate, cur_fns, cur_adts, cur_consts=None):
     """{current path: reference path} for items that merely moved or were renamed.
     cur_fns: {path: (param types, ret type, kind)}, cur_adts: {path: (kind, names)}."""
@@ -110,6 +132,14 @@ def alias_map(crate, cur_fns, cur_adts, cur_consts=None):
         if len(c) == 1 and len(back) == 1 and len(s[0]) >= 1:
             out[p] = c[0]
             used.add(c[0])
+        elif len(c) > 1 and len(c) == len(back) and len(s[0]) >= 1 and len(s) > 3 and s[3]:
+            # several functions of one module with one signature renamed at once: the one whose body has the same integer literals
+            # (digest recorded with the reference), if that singles one out on both sides
+            c2 = [q for q in c if missing[q].get("lits") == s[3]]
+            b2 = [r for r in back if len(new[r]) > 3 and new[r][3] == s[3]]
+            if len(c2) == 1 and len(b2) == 1:
+                out[p] = c2[0]
+                used.add(c2[0])
     return out
 
 
